@@ -104,3 +104,14 @@ func init() {
 		Extra:       func(cc *checkCtx) *extraResult { return cc.runOverlayTests([]overlayTest{descentLattice, ringAssembly}) },
 	}
 }
+
+func init() {
+	propertyPlans["C12"] = &PropertyPlan{ID: "C12",
+		NotDecided: []string{
+			"everything behind writeFeatures: one row per feature in the table, the spatial index entries, the recorded extent, table name / columns / geometry type / spatial reference system (database/sql and cgo SQLite are outside the verified subset)",
+			"that the sender closes the channel (termination of WriteFeatures): the receive is modelled with an arbitrary value and an arbitrary closed flag"},
+		Assumptions: []string{"positive page size (precondition; a page size of 0 makes len(features) % pagesize panic)",
+			"writeFeatures is a trusted leaf whose only modelled effect is the ghost log of the page it is given; its panic / exit (log.Fatalf) is treated as possible",
+			"channel receive: arbitrary value and closed flag, received values recorded in the ghost list recv_inFeatures"},
+	}
+}
